@@ -51,26 +51,47 @@ def gen_data(rng, regdefs, nmax=12, allnone=0.08):
     return out
 
 
-def build_file(F, regs, elems):
+def build_file(F, regs, elems, prep=0):
+    """prep 0: registers constructed with their data; prep 1: constructed empty, the file saved once, then filled in
+    place (the way property setters edit a register) ; prep 2: constructed with other data, inspected, then edited in place"""
+    import io
     from cfinterface.components.defaultregister import DefaultRegister
     from cfinterface.data.registerdata import RegisterData
     data = RegisterData(DefaultRegister(data=""))
+    later = []
     for i, d in elems:
         if i < 0:
             data.append(DefaultRegister(data=d))
         else:
-            data.append(regs[i](data=[fl.py_value(v) for v in d]))
-    return F(data)
+            vals = [fl.py_value(v) for v in d]
+            if prep == 0 or not vals:
+                r = regs[i](data=vals)
+            elif prep == 1:
+                r = regs[i](data=[None] * len(vals))
+                later.append((r, vals))
+            else:
+                r = regs[i](data=[(0 if isinstance(v, int) else v) if v is not None else 0 for v in vals])
+                _ = r.empty
+                later.append((r, vals))
+            data.append(r)
+    f = F(data)
+    if later:
+        if prep == 1:
+            f.write(io.StringIO())
+        for r, vals in later:
+            for j, v in enumerate(vals):
+                r.data[j] = v
+    return f
 
 
 class CHECK(Check):
     pid = "C05"
     entry = "REGFILE"
     theorems = ["C05_roundtrip", "C05_empty_skipped", "C05_falsy_kept", "C05_dispatch_written"]
-    rule = ("register file definitions of 1-4 types (equal identifier windows, identifiers unambiguous by the decidable "
+    rule = ("register file definitions of 1-4 types (equal or different identifier windows, identifiers unambiguous by the decidable "
             "sufficient condition, positional layouts of 1-4 fields of mixed kinds) x sequences of 0-12 elements: typed "
             "registers with canonical fitting data (zeros, empty strings, None in non-literal positions), registers "
-            "whose values are all None, free-text lines that match no identifier; the file is written to a StringIO, "
+            "whose values are all None, free-text lines that match no identifier; registers are constructed with their data, or constructed empty / with other data, saved or inspected once and then edited in place (object history); the file is written to a StringIO, "
             "read back, compared element by element and with ==. The model decides whether the generated data are "
             "fitting and canonical (others are counted and skipped). non-trivial = at least two typed elements of "
             "different types or a typed and a default element; distinct = hash")
@@ -79,11 +100,11 @@ class CHECK(Check):
         n = 2500 if tier == "quick" else 60000
         made = 0
         while made < n:
-            regdefs = reglib.gen_regdefs(rng, same_window=True)
+            regdefs = reglib.gen_regdefs(rng, same_window=rng.random() < 0.5)
             if not reglib.unambiguous(regdefs):
                 continue
             made += 1
-            yield {"regdefs": regdefs, "elems": gen_data(rng, regdefs)}
+            yield {"regdefs": regdefs, "elems": gen_data(rng, regdefs), "prep": rng.choice([0, 0, 1, 2])}
         # falsy values explicitly
         rd = [{"ident": "Z", "digits": 2, "fields": [{"k": "int", "size": 4, "start": 2}, {"k": "lit", "size": 3, "start": 6},
                                                       {"k": "float", "size": 6, "start": 9, "dd": 1, "fmt": "F", "sep": "."}], "delim": None}]
@@ -96,7 +117,7 @@ class CHECK(Check):
         F = reglib.mk_file_class(regs)
         try:
             with lib.budget(200000):
-                f = build_file(F, regs, case["elems"])
+                f = build_file(F, regs, case["elems"], case.get("prep", 0))
                 buf = io.StringIO()
                 f.write(buf)
                 text = buf.getvalue()
@@ -155,7 +176,7 @@ class CHECK(Check):
         return len(ts) >= 2
 
     def classify(self, case):
-        d = {"types_%d" % len(case["regdefs"]): 1, "elems_%02d" % len(case["elems"]): 1}
+        d = {"types_%d" % len(case["regdefs"]): 1, "elems_%02d" % len(case["elems"]): 1, "prep_%d" % case.get("prep", 0): 1}
         for e in case["elems"]:
             k = "default_line" if e[0] < 0 else ("all_none" if all(v is None for v in e[1]) else "typed")
             d[k] = d.get(k, 0) + 1
